@@ -145,7 +145,7 @@ from . import rules_mk as mk
 
 PROPS['C07'] = {
     'rules': [R(ss.rule_SS6), R(ss.rule_SO1), R(ss.rule_SS4), R(mk.rule_MK4), R(mk.rule_NR1), R(pc.rule_PC6)],
-    'floors': {'SS6': 9, 'SO1': 4, 'SS4': 9, 'MK4': 6, 'NR1': 1, 'PC6': 8},
+    'floors': {'SS6': 8, 'SO1': 4, 'SS4': 9, 'MK4': 6, 'NR1': 1, 'PC6': 8},
     'explanation': 'Decides who sends what to whom: for output, _reshare, transfer and _distribute the (sender, receiver) pairs implied by '
                    'the send guard equal those implied by the receive enumeration, as offset intervals modulo m normalised from the '
                    'expression syntax (SS6); result slots are indexed by the position in the sender list (SO1); the x-coordinate of every '
